@@ -555,7 +555,14 @@ func mutateRLPTree(t *rapid.T, data []byte) []byte {
 	var all []*ritem
 	root.nodes(&all)
 	nd := all[rapid.IntRange(0, len(all)-1).Draw(t, "node")]
-	switch rapid.IntRange(0, 11).Draw(t, "treeMut") {
+	switch rapid.IntRange(0, 12).Draw(t, "treeMut") {
+	case 12:
+		// empty string <-> empty list (what an `rlp:"nil"` pointer accepts)
+		if len(nd.str) == 0 && len(nd.kids) == 0 {
+			nd.list = !nd.list
+		} else {
+			nd.list, nd.str, nd.kids = true, nil, nil
+		}
 	case 0:
 		nd.longLen = true
 	case 1:
